@@ -225,13 +225,21 @@ Corrupt(c) ==
     /\ act' = [op |-> "Corrupt", c |-> c]
     /\ UNCHANGED <<ws, dirobjs, pc, args, todoDel, todoNew, needRm, pend, failed, res, touched, dev, n>>
 
+\* between two checkouts (of one process) a missing object arrives in the cache (it was fetched)
+Arrive(c) ==
+    /\ Idle /\ n >= 1 /\ n < MaxCheckouts /\ cache[c] = "none"
+    /\ \A k \in AllKeys : ws.files[k] = NoFile \/ ws.files[k].c # "dangling"     \* (which object a dangling link named is not tracked)
+    /\ cache' = [cache EXCEPT ![c] = "ok"]
+    /\ act' = [op |-> "Arrive", c |-> c]
+    /\ UNCHANGED <<ws, dirobjs, pc, args, todoDel, todoNew, needRm, pend, failed, res, touched, dev, n>>
+
 Targets == {[kind |-> "none"]} \cup {[kind |-> "file", c |-> c] : c \in Contents}
               \cup {[kind |-> "tree", listing |-> l] : l \in UNION {[S -> Contents] : S \in SUBSET Keys}}
 Next ==
     \/ \E t \in Targets, f \in BOOLEAN, r \in BOOLEAN, p \in Prompts, st \in BOOLEAN : Begin(t, f, r, p, st)
     \/ \E k \in AllKeys : RemoveDel(k) \/ PromptDel(k) \/ RemoveNew(k) \/ PromptNew(k) \/ Create(k) \/ CreateDangling(k)
     \/ End \/ Crash \/ EndDoomed
-    \/ \E c \in Contents : Evict(c) \/ Corrupt(c)
+    \/ \E c \in Contents : Evict(c) \/ Corrupt(c) \/ Arrive(c)
 
 (******************************* properties *********************************)
 \* ---- C05: without force (and without an affirmative prompt) nothing that is not recoverable from
